@@ -247,3 +247,5 @@ def run(ctx, rep):
     rep.ob("R10.5", "Connection._proxy_cache holds proxies weakly (dropping the last user reference finalizes the proxy)", okw,
            "WeakValueDict()" if okw else "the proxy cache keeps proxies alive: finalizers never run and the owner never releases",
            ctx.loc(ctor) if ctor is not None else "?", kind="site")
+
+    K.share(ctx, rep, "c08", lambda o: o.rule == "R08.3" and "_seq_request_callback" in o.key, "R10.5", floor=3)
